@@ -18,6 +18,7 @@ import (
 	gcmpb "github.com/tink-crypto/tink-go/v2/proto/aes_gcm_go_proto"
 	gcmsivpb "github.com/tink-crypto/tink-go/v2/proto/aes_gcm_siv_go_proto"
 	sivpb "github.com/tink-crypto/tink-go/v2/proto/aes_siv_go_proto"
+	chachapb "github.com/tink-crypto/tink-go/v2/proto/chacha20_poly1305_go_proto"
 	commonpb "github.com/tink-crypto/tink-go/v2/proto/common_go_proto"
 	ecdsapb "github.com/tink-crypto/tink-go/v2/proto/ecdsa_go_proto"
 	hkdfprfpb "github.com/tink-crypto/tink-go/v2/proto/hkdf_prf_go_proto"
@@ -26,6 +27,8 @@ import (
 	pk1pb "github.com/tink-crypto/tink-go/v2/proto/rsa_ssa_pkcs1_go_proto"
 	psspb "github.com/tink-crypto/tink-go/v2/proto/rsa_ssa_pss_go_proto"
 	tinkpb "github.com/tink-crypto/tink-go/v2/proto/tink_go_proto"
+	xaesgcmpb "github.com/tink-crypto/tink-go/v2/proto/x_aes_gcm_go_proto"
+	xchachapb "github.com/tink-crypto/tink-go/v2/proto/xchacha20_poly1305_go_proto"
 )
 
 var idUniverse = []uint64{1, 2, 3, 5, 7, 0x7fffffff, 0x80000000, 0xffffffff, 0, 65536 + 5}
@@ -238,6 +241,13 @@ func typedVariant(r *hx.Rng, k *mKey) string {
 			Params: &hmacprfpb.HmacPrfParams{Hash: hx.PickS(r, hashes)}})
 	case "AesCmacPrfKey":
 		k.Value = mustMarshal(&cmacprfpb.AesCmacPrfKey{Version: ver, KeyValue: r.Bytes(hx.PickS(r, []int{15, 16, 24, 32, 33}))})
+	case "ChaCha20Poly1305Key":
+		k.Value = mustMarshal(&chachapb.ChaCha20Poly1305Key{Version: ver, KeyValue: r.Bytes(hx.PickS(r, []int{0, 16, 31, 32, 32, 33}))})
+	case "XChaCha20Poly1305Key":
+		k.Value = mustMarshal(&xchachapb.XChaCha20Poly1305Key{Version: ver, KeyValue: r.Bytes(hx.PickS(r, []int{0, 16, 31, 32, 32, 33}))})
+	case "XAesGcmKey":
+		k.Value = mustMarshal(&xaesgcmpb.XAesGcmKey{Version: ver, KeyValue: r.Bytes(hx.PickS(r, []int{16, 31, 32, 32, 33})),
+			Params: &xaesgcmpb.XAesGcmParams{SaltSize: hx.PickS(r, []uint32{0, 7, 8, 10, 12, 13})}})
 	case "RsaSsaPkcs1PublicKey":
 		k.Value = mustMarshal(&pk1pb.RsaSsaPkcs1PublicKey{Version: ver, N: odd(r, hx.PickS(r, []int{1024, 2047, 2048, 2049, 3072})),
 			E: hx.PickS(r, rsaExponents), Params: &pk1pb.RsaSsaPkcs1Params{HashType: hx.PickS(r, hashes)}})
